@@ -168,13 +168,13 @@ def gen_case(rng, nmax):
 
 def cases_for(run):
     rng = run.rng
-    n = 200 if run.tier == "quick" else 5000
-    nmax = 8 if run.tier == "quick" else 14
+    n = 200 if run.tier == "quick" else 2000
+    nmax = 8 if run.tier == "quick" else 12
     return [gen_case(rng, nmax) for _ in range(n)]
 
 
 def check(run):
-    run.rule = ("patterns A -> all B [filter] -> C and A -> all B over streams A B^n C (n <= 8 quick / 14 thorough, noise events, second round), "
+    run.rule = ("patterns A -> all B [filter] -> C and A -> all B over streams A B^n C (n <= 8 quick / 12 thorough, noise events, second round), "
                 "B filter absent / constant / cross-alias / self-referencing, caps max_kleene in {1,2,3,n,n+1,20} x max_results in {1,2,3,7,2^n,10000}; "
                 "judged against brute-force subset enumeration; non-trivial = at least one match; distinct = distinct (program, stream)")
     run.trusted += ["Coq 8.16.1 kernel + vm_compute", "hand-written model coq/theories/Sase/Model.v on top of the proved Zdd model (tied by differential run incl. combinations)",
